@@ -88,6 +88,26 @@ PREFERRED = ["sign", "power", "mod", "exp", "log", "sqrt", "abs", "absolute", "s
              "maximum", "angle", "floor", "conj", "real", "divide", "negative", "positive", "fabs", "hypot"]
 
 
+def gen_mut(rng, trk, names0):
+    """an in-place mutation of an existing numeric column of the table pictured by trk:
+    whole column (item / attribute style), broadcast scalar, or one cell by position / by name"""
+    num = [(c, k) for c, k in trk.cols if k in ("float", "int") and c.isidentifier()]
+    if not num:
+        return None
+    c, kind = rng.choice(num)
+    z = rng.random()
+    if z < 0.3:
+        return ["set", c, ["arr", kind, rand_vals(rng, kind, trk.n)]]
+    if z < 0.45:
+        return ["setattr", c, ["arr", kind, rand_vals(rng, kind, trk.n)]]
+    if z < 0.55:
+        return ["set", c, ["scalar", rng.randint(-4, 4)]]
+    v = rng.randint(-9, 9) if kind == "int" else rng.choice([2.5, -1.5, 7.0, 0.25])
+    if z < 0.85 or not names0:
+        return ["setcell", c, rng.randint(-trk.n, trk.n - 1) if trk.n else 0, v]
+    return ["setcell", c, rng.choice(names0), v]
+
+
 def gen_case(rng, maxops=6, mathnames=()):
     # a quarter of the cases name their columns and scalars like entries of the
     # table's math namespace (numpy ufuncs and `np`; list read from xdeps.table at
@@ -170,17 +190,47 @@ def gen_case(rng, maxops=6, mathnames=()):
     tr = Track(cols, n, index, scal, numscal)
     # how often a derivation is made from the current table while that table
     # stays current (selections and assignments interleaved on one source)
-    stay_p = 1.0 if focus else rng.choice([0.0, 0.4, 0.7, 1.0])
-    for _ in range(rng.randint(3 if focus else 1, maxops if stay_p == 0.0 else maxops + 2)):
+    # a fifth of the cases alternate between a table and a table derived from it that shares its
+    # column arrays (cols[...], _copy, row slices): expressions asked of both, existing columns and
+    # cells assigned in place through either, the expressions asked again (the runner re-asks them)
+    share = not focus and rng.random() < 0.25 and any(k in ("float", "int") for _, k in cols[1:])
+    names0 = [x for r in data if r[0] == "name" and r[1] == "str" for x in r[2]]
+    dtr = None
+    stay_p = 1.0 if focus or share else rng.choice([0.0, 0.4, 0.7, 1.0])
+    for _ in range(rng.randint(3 if focus else 4 if share else 1, maxops if stay_p == 0.0 else maxops + 2)):
         k = rng.random()
         if focus and rng.random() < 0.85:
             k = rng.choice([rng.uniform(0, 0.38), rng.uniform(0.81, 0.95)])
         op = None
+        if share:
+            z = rng.random()
+            if z < 0.25:
+                k = 0.97                                        # an expression asked of the current table
+            elif z < 0.5 and dtr is not None:
+                m = gen_mut(rng, dtr, names0)
+                if m:
+                    case["ops"].append(["ond", m])
+                continue
+            elif z < 0.6 and dtr is not None:
+                e = gen_expr(rng, dtr)
+                if e and e[0] not in dtr.names():
+                    case["ops"].append(["ond", ["expr", e[0], rng.choice(["item", "cols"])]])
+                continue
+            elif z < 0.72:
+                m = gen_mut(rng, tr, names0)
+                if m:
+                    case["ops"].append(m)
+                continue
+            elif z < 0.95:
+                k = rng.choice([rng.uniform(0.2, 0.38), 0.65, 0.1, 0.1])   # cols / _copy / rows
         saved = Track(tr.cols, tr.n, tr.index, tr.scalars, tr.numscal)
         if collide and rng.random() < 0.45:
             k = 0.97      # an expression
         if k < 0.2:
             s, m = gen_sel(rng, tr.n)
+            if share and rng.random() < 0.7:        # a row slice is a view of the source columns
+                lo, hi = sorted([rng.randint(0, tr.n), rng.randint(0, tr.n)])
+                s, m = ["slice", lo, hi], hi - lo
             op = ["rows", s]
             if m is not None:
                 tr.n = m
@@ -275,7 +325,7 @@ def gen_case(rng, maxops=6, mathnames=()):
                     op = ["expr", e[0], "item"]
         if op and op[0] in DERIVE and rng.random() < stay_p:
             op = ["stay", op]
-            tr = saved
+            dtr, tr = tr, saved
         if op:
             case["ops"].append(op)
     return case
@@ -322,8 +372,10 @@ def emit_ops(case, ctor_obs, obs, N):
         if stay:
             op = op[1]
         k = op[0]
-        if k == "expr":
-            continue
+        if k in ("expr", "ond", "setcell"):
+            continue        # values / another live table: no counterpart in the shape model
+        if k == "setattr":
+            k, op = "set", ["set"] + list(op[1:])
         if k == "rows":
             t = f"ORows {emit_idx(op[1])}"
         elif k == "cols":
@@ -470,7 +522,9 @@ def run(ctx):
                 "selections and assignments interleave on one source table; "
                 "a quarter of the tables name columns and scalars like entries of the math namespace of xdeps.table (numpy ufuncs, np; "
                 "list read at run time) and evaluate t[expr], t[expr,row], t.cols[expr] over them (scalars included): the table's entry "
-                "must win; non-trivial = at least two successful derivations of different kinds in one chain; distinct by (table, chain)")
+                "must win; a fifth of the chains alternate between a table and a table derived from it that shares its column arrays (cols[..], "
+                "_copy, row slices): expressions asked of both, existing columns and cells assigned in place through either (item, attribute, "
+                "cell by position / name), and every expression asked before is asked again after every mutation; non-trivial = at least two successful derivations of different kinds in one chain; distinct by (table, chain)")
     proof_ok = vlib.standard_proof_part(ctx, "props/C14.v", allowed_axioms=(), extra_targets=["run/RunTableRect.vo"])
     # the names of the table's math namespace, by introspection of xdeps.table in the build under test
     mathnames = tuple(vlib.run_impl(RUNNER, {"meta": "gblmath"})["gblmath"])
@@ -487,11 +541,16 @@ def run(ctx):
             if stay:
                 op = op[1]
                 dist["stay"] = dist.get("stay", 0) + 1
+            if op[0] == "ond":
+                dist["ond:" + op[1][0]] = dist.get("ond:" + op[1][0], 0) + 1
+                if o[0] == "err":
+                    errs[o[1]] = errs.get(o[1], 0) + 1
+                continue
             dist[op[0]] = dist.get(op[0], 0) + 1
             if o[0] == "err":
                 errs[o[1]] = errs.get(o[1], 0) + 1
                 continue
-            if op[0] not in ("set", "expr", "del"):
+            if op[0] not in ("set", "setattr", "setcell", "expr", "del"):
                 kinds.add(op[0])
             # scalar -> column promotion between two selections on the same table
             if op[0] in ("rows", "cols") and stay:
